@@ -382,6 +382,13 @@ reg(Prop("C15", "Transposition table returns only what was stored for that key",
                          "signature 0), depths/plies 0..63, all bound types, generations incl. 254->255->0, scores around "
                          "+-(Inf+-64), +-Inv and ordinary; 6% malformed (out-of-range depth/ply/type/score, invalid sizes); "
                          "every mutating op is followed by a probe of all pool keys; non-trivial = at least 3 stores"),
+          StreamCfg("c15big", 9, 90, judge="judge_c15big", model=False,
+                    rule="judge only: big tables (8, 16, 24 MB and odd bucket counts around them: primes, 2^k+-1, +-7) with "
+                         "GOMAXPROCS part of the input (host value, 2..64); one key aimed (checked through VerifBucketIx) at each of "
+                         "the first 3 and last 66 buckets and at chunk boundaries for 2..64 workers; scripts: store all; Clear; "
+                         "probe all; stores; Resize(other big size)+Clear; probe all; store all; Clear; probe all - and the "
+                         "shrink/regrow family: store all; Resize(smaller); Clear; no store; Resize(up, inside the old "
+                         "allocation); Clear; probe all"),
           StreamCfg("m64", 200000, 10000000, judge="judge_m64",
                     rule="match64 through the VerifMatch64 hook: lanes drawn equal to the key, one bit off, key+1 (borrow "
                          "neighbour), key^0x8000, boundary patterns, random; 0..4 matching lanes")],
